@@ -269,7 +269,7 @@ def main():
     hvsrpy = import_hvsrpy()
     quick = run.quick
     total_calls = 0
-    for na, rng_, k, stride in ((1, "Ranges6", 60 if quick else 10, 5 if quick else 2), (2, "Ranges6s", 15000 if quick else 1500, 9 if quick else 3)):
+    for na, rng_, k, stride in ((1, "Ranges6", 60 if quick else 12, 5 if quick else 3), (2, "Ranges6s", 15000 if quick else 3000, 9 if quick else 4)):
         ex = hvsrobj.cfg_text(na, 3, 6, "Alpha6a", rng_, "NSetA", "MaxItsA", "InitEnv", export=True, props=["CurvesFixed"])
         res, graph = hvsrobj.export_graph(ex, f"C20-export{na}", {"VERIF_K": k, "VERIF_SEED": run.seed}, timeout=3000)
         run.add_tlc(res, f"HvsrObject NA={na} export (states at which the plotting functions are exercised)")
